@@ -211,13 +211,22 @@ pub fn unsupported() -> Result<()> {
     Err(star_frame::error!(ErrorCode::UnsizedUnexpected, "harness: unsupported op"))
 }
 
+thread_local! {
+    /// number of elements yielded by shared accessors whose extent was NOT inside the input
+    pub static OUTSIDE: std::cell::Cell<i128> = const { std::cell::Cell::new(0) };
+}
+
 pub fn inside<T>(p: &T::Ptr, input: (usize, usize)) -> i128
 where
     T: UnsizedType + ?Sized,
 {
     let start = T::start_ptr(p) as usize;
     let len = T::data_len(p);
-    (start >= input.0 && start.checked_add(len).map_or(false, |e| e <= input.0 + input.1)) as i128
+    let ok = start >= input.0 && start.checked_add(len).map_or(false, |e| e <= input.0 + input.1);
+    if !ok {
+        OUTSIDE.with(|c| c.set(c.get() + 1));
+    }
+    ok as i128
 }
 
 // ---------------------------------------------------------------- List<T, L>
